@@ -136,6 +136,9 @@ def plan(tier, seed):
             tamper=({'pdu': rng.choice(['confirm', 'random', 'dhkey', 'pubkey']), 'role': rng.randrange(2),
                      'nth': rng.choice([1, 1, 2, 7, 20]), 'byte': rng.randrange(16), 'bit': rng.randrange(8)}
                     if rng.random() < 0.1 else None)))
+    for c in cases:
+        if c['kind'] == 'mix' and c['tamper'] is not None:
+            c['passkey'] = None    # keep the 000000 class and the tampering classes apart
     # (3a) negative answers, systematically per model
     model_io = {
         'pk-i-disp': (rs.DISPLAY_ONLY, rs.KEYBOARD_ONLY), 'pk-r-disp': (rs.KEYBOARD_ONLY, rs.DISPLAY_YES_NO),
@@ -616,7 +619,7 @@ async def le_case(case, r: R):
     elif users.refusals:
         what = users.refusals[0][1]
     in_use = [v for v in (users.displayed[C], users.displayed[P], users.entered[C], users.entered[P]) if v is not None]
-    cls = what or ('passkey-zero' if (0 in in_use) else None)
+    cls = 'passkey-zero' if (0 in in_use) else what   # 000000 is a class of its own, whatever else happened
     sfx = f'/{cls}' if cls else ''
     if hang:
         r.bad(f'hang/pair/{mode}/{exp_model}{sfx}', f'pair() still pending after {vloop.T_V} virtual s; responder={fin[P]} '
